@@ -158,6 +158,9 @@ func runGlueScenario(dir string, sc gScenario, prefix, prefixN []int) (*sched.Ex
 				mk["at"] = at.Format(time.RFC3339)
 				due = int64(at.Sub(sched.Epoch))
 			}
+			// the request's result is observed some scheduling points after the service has decided it: the monitor
+			// is told when the request is handed over (a timer may go off in between)
+			r.rec(ev{Kind: "add-begin", Id: op.Id, Token: tok, Due: due})
 			e := send(map[string]interface{}{"makeTimer": mk})
 			r.rec(ev{Kind: "add", Id: op.Id, Token: tok, Err: e, Due: due})
 		case "cancel":
